@@ -216,15 +216,19 @@ def dupQueryUnsorted (q : List (Bytes × Bytes)) : Bool :=
   let enc := q.map fun p => (SigV4Spec.uriEncode false p.1, SigV4Spec.uriEncode false p.2)
   sortByFirst enc ≠ SigV4Spec.sortPairs enc
 
-/-- finding class from the shape of the request (one class per defect, fixed priority) -/
+/-- finding class from the shape of the request (one class per defect, fixed priority).
+    `sigv4-edge-whitespace-amz-header` (SP / HTAB around `x-amz-date` or `x-amz-content-sha256`) is repaired by d453cd3:
+    the blanks no longer decide the verdict, so the shapes that still do (the open classes) are looked at first; a request
+    that has nothing but the edge blanks keeps the class, and a regression is flagged under it. -/
 def e2eClass (w : SigV4Spec.Wire) : String :=
   let hs := SigV4Spec.effectiveHeaders w
   let q := (SigV4Spec.decodeQuery (w.rawQuery.getD [])).getD []
-  let shape (signed : List Bytes) (credDate dateHdr : Bytes) : String :=
+  let shape (signed : List Bytes) (credDate dateHdr : Bytes) (edgeBlanks : Bool) : String :=
     if credDate ≠ dateHdr.take 8 then "sigv4-credential-date-ignored"
     else if signed.any (fun n => SigV4Spec.headerVals hs n = []) then "sigv4-absent-signed-header"
     else if dupQueryUnsorted (q.filter fun p => p.1 ≠ SigV4Spec.xAmzSignature) then "sigv4-dup-query-unsorted"
     else if (w.method = b!"GET" || w.method = b!"HEAD") && w.body ≠ [] then "sigv4-get-head-body"
+    else if edgeBlanks then "sigv4-edge-whitespace-amz-header"
     else if signed.any (fun n => (SigV4Spec.headerVals hs n).length ≥ 2) then "sigv4-repeated-header"
     else if signed.any (fun n => (SigV4Spec.headerVals hs n).any hasInnerRun) then "sigv4-inner-whitespace"
     else "sigv4-other"
@@ -240,7 +244,7 @@ def e2eClass (w : SigV4Spec.Wire) : String :=
           SigV4Spec.paramVals q SigV4Spec.qSignedHeaders with
     | [c], [d], [sh] =>
       match SigV4Spec.parseCredential c with
-      | some c => shape (SigV4Spec.splitAll 59 sh) c.scope.date d
+      | some c => shape (SigV4Spec.splitAll 59 sh) c.scope.date d false
       | none => "sigv4-other"
     | _, _, _ => "sigv4-other"
   else
@@ -250,10 +254,10 @@ def e2eClass (w : SigV4Spec.Wire) : String :=
       | .error e => if e = "algorithm is not AWS4-HMAC-SHA256" then "sigv4-algorithm-unchecked" else "sigv4-authorization-grammar"
       | .ok a =>
         let edge (n : Bytes) : Bool := (SigV4Spec.headerVals hs n).any fun v => SigV4Spec.trimLws v ≠ v
-        if edge SigV4Spec.xAmzDateName || edge SigV4Spec.xAmzContentSha256Name then "sigv4-edge-whitespace-amz-header"
-        else match SigV4Spec.headerVals hs SigV4Spec.xAmzDateName with
-        | [d] => shape a.signed a.cred.scope.date (SigV4Spec.trimLws d)
-        | _ => "sigv4-other"
+        let edgeBlanks := edge SigV4Spec.xAmzDateName || edge SigV4Spec.xAmzContentSha256Name
+        match SigV4Spec.headerVals hs SigV4Spec.xAmzDateName with
+        | [d] => shape a.signed a.cred.scope.date (SigV4Spec.trimLws d) edgeBlanks
+        | _ => if edgeBlanks then "sigv4-edge-whitespace-amz-header" else "sigv4-other"
     | _ => "sigv4-other"
 
 def judgeE2E (id : String) (ins outs0 : List String) : String :=
